@@ -288,6 +288,37 @@ ENDIAN = {"to_le_bytes": "shim_to_le_bytes", "to_be_bytes": "shim_to_be_bytes",
           "from_le_bytes": "shim_from_le_bytes", "from_be_bytes": "shim_from_be_bytes"}
 
 
+def eval_cfg(toks, cfgset):
+    """evaluate a cfg predicate (token list) under the stated configuration: `cfgset` names are
+    true, every `feature = "..."` is false, `test`/`kani` false."""
+    pos = [0]
+
+    def pred():
+        t = toks[pos[0]]
+        name = t.text
+        pos[0] += 1
+        if pos[0] < len(toks) and toks[pos[0]].text == "(":
+            pos[0] += 1
+            args = []
+            while toks[pos[0]].text != ")":
+                args.append(pred())
+                if toks[pos[0]].text == ",":
+                    pos[0] += 1
+            pos[0] += 1
+            if name == "any":
+                return any(args)
+            if name == "all":
+                return all(args)
+            if name == "not":
+                return not args[0]
+            raise Lost("unknown cfg combinator %s" % name)
+        if pos[0] < len(toks) and toks[pos[0]].text == "=":
+            pos[0] += 2
+            return False      # feature = "x", target_os = "y", ... : none enabled
+        return name in cfgset
+    return pred()
+
+
 def _attr_spans(toks, groups):
     """yield (i_hash, i_close, name) for each outer attribute"""
     for i, t in enumerate(toks):
@@ -370,6 +401,13 @@ def rule_pass(text, log, cfgset):
         if name in DROP_ATTRS:
             rec("R6-drop-attr", toks[i].start, toks[c].end, "")
             consumed.update(range(i, c + 1))
+        elif name == "cfg" and toks[i + 3].text == "(":
+            inner = toks[i + 4:groups[i + 3]]
+            if eval_cfg(inner, cfgset):
+                rec("R6-cfg-true", toks[i].start, toks[c].end, "")
+                consumed.update(range(i, c + 1))
+            else:
+                raise Lost("cfg-false element inside an extracted item (%s): not supported" % text[toks[i].start:toks[c].end])
         elif name == "derive" and toks[i + 3].text == "(":
             o, cl = i + 3, groups[i + 3]
             ents, st, j = [], o + 1, o + 1
